@@ -61,7 +61,7 @@ def judgeResp (st : RespSt) (fields : List String) : RespSt × String :=
       let errs := Spec.C05.deliveredOK ae ce (bodyOK = "1") (clOK = "1") code st.status h want
       let trip := String.join (errs.map fun e => " TRIP " ++ e)
       -- model
-      let hit := st.cacheable ∧ (path = "second" ∨ path = "restored")
+      let hit := st.cacheable ∧ (path = "second" ∨ path = "again" ∨ path = "restored")
       let mxs : Str := if path = "post" then "passed".toList
         else if path = "fetch" then "fetching".toList
         else if st.cacheable then "hit".toList else "hitForPass".toList
